@@ -146,11 +146,21 @@ def check_instance(ctx, f, inst):
     kind = inst["kind"]
     metric = inst["metric"]
     calls = b.calls()
+
+    def on_default_registry(c_):
+        """`default_registry().register(..)`: what prometheus::register itself is (F3 `prometheus::register|default-registry`)"""
+        return c_.matches("Registry::register") and is_call(peel(c_.args[0], transparent=["Deref::deref"]), ["default_registry"]) and not peel(c_.args[0], transparent=["Deref::deref"])[2]
+    dr_calls = {peel(c_.args[0], transparent=["Deref::deref"])[3] for c_ in calls if on_default_registry(c_)}
     # ---- exact call multiset
     ctor = None
     names = []
     for c in calls:
         s = callee_short(c)
+        if on_default_registry(c):
+            names.append("prometheus::register")
+            continue
+        if c.bb in dr_calls and c.matches(["default_registry"]):
+            continue
         if c.matches("HashMap::with_capacity") and len(c.args) == 1 and _pure_size(b, c.args[0]):
             names.append("HashMap::new")         # an empty map either way; the capacity is a pure size computed from literals (no macro argument is evaluated for it)
             continue
@@ -234,7 +244,7 @@ def check_instance(ctx, f, inst):
         if "REGISTRY" in inst["args"]:
             okr = rc.matches("Registry::register") and peel(rc.args[0]) == pidx["REGISTRY"]
         else:
-            okr = not rc.matches("Registry::register")
+            okr = not rc.matches("Registry::register") or on_default_registry(rc)
         ok &= ctx.ob("F3", key + "|registry", okr, "%s! must register in %s (found %s)" % (inst["macro"], "the registry given in the call" if "REGISTRY" in inst["args"] else "the default registry via prometheus::register", strip_generics(rc.callee)))
         ok &= ctx.ob("F4", key + "|registers-the-metric", okb and okm, "the registered collector must be a clone of the constructed metric (found %s)" % show(boxed)[:200])
         mp = b.calls_to("Result::map")
